@@ -537,8 +537,9 @@ impl FixtureDatabase {
             );
         }
 
-        // Check if this is a test function
-        let is_test = func_name.starts_with("test_");
+        // Check if this is a test function (a function decorated as a fixture is a fixture,
+        // whatever its name: it has been handled above and is not collected as a test)
+        let is_test = fixture_decorator.is_none() && func_name.starts_with("test_");
 
         if is_test {
             debug!("Found test function: {}", func_name);
